@@ -89,9 +89,31 @@ fn lex(src: &str) -> Result<Vec<Tok>, String> {
         } else if "{}[];,=".contains(c) {
             out.push(Tok::Sym(c));
             i += 1;
-        } else if c.is_ascii_alphanumeric() || c == '_' || c == '.' {
+        } else if c.is_ascii_digit() || ((c == '.' || c == '-') && cs.get(i + 1).is_some_and(|d| d.is_ascii_digit() || (c == '-' && *d == '.'))) {
+            // DOT numeral: [-]?(.[0-9]+ | [0-9]+(.[0-9]*)?); it ends where the numeral ends, whatever
+            // follows (`9_0` is the numeral 9 followed by the identifier _0, as Graphviz reads it)
             let mut s = String::new();
-            while i < cs.len() && (cs[i].is_ascii_alphanumeric() || cs[i] == '_' || cs[i] == '.') {
+            if cs[i] == '-' {
+                s.push('-');
+                i += 1;
+            }
+            while i < cs.len() && cs[i].is_ascii_digit() {
+                s.push(cs[i]);
+                i += 1;
+            }
+            if i < cs.len() && cs[i] == '.' {
+                s.push('.');
+                i += 1;
+                while i < cs.len() && cs[i].is_ascii_digit() {
+                    s.push(cs[i]);
+                    i += 1;
+                }
+            }
+            out.push(Tok::Id(s));
+        } else if c.is_ascii_alphabetic() || c == '_' || !c.is_ascii() {
+            // DOT identifier: [a-zA-Z_\200-\377][a-zA-Z_0-9\200-\377]*
+            let mut s = String::new();
+            while i < cs.len() && (cs[i].is_ascii_alphanumeric() || cs[i] == '_' || !cs[i].is_ascii()) {
                 s.push(cs[i]);
                 i += 1;
             }
